@@ -231,6 +231,8 @@ def make_code(case):
     phases = {}
     for nm, nxt, prog in case["phases"]:
         phases[nm] = replay_named(prog, nm).as_execution_phase(nxt)
+    if len(phases) % 2 == 0:
+        return DAGCode.from_phases_list(list(phases.values()), case["first"])     # the other constructor
     return DAGCode(phases=phases, initial_phase=case["first"])
 
 
